@@ -176,7 +176,7 @@ func scC16(r *Run) {
 		gen:   muxGen{variants: allVariants, minCalls: 40, maxCalls: 250, paramChanges: true, negativeStart: true, reorder: true},
 		query: true,
 		oracle: func(w *muxWorld) {
-			w.obs.reportProblems(r, "grammar", "blocked", "fetch")
+			w.obs.reportProblems(r, "grammar", "blocked", "fetch", "index")
 			if !r.Failed() {
 				w.obs.analyse(r).oracleC16()
 			}
